@@ -14,6 +14,9 @@ pub mod encoding {
     impl<T> Encoding<T> for Default {}
 }
 
+/// the crate's names as a (changed) body may spell them with their full path
+pub mod zvt_builder { pub use super::{ZVTError, ZVTResult, Tag, ZvtParser, ZvtSerializer, encoding}; }
+
 /// Abstract contract of a reply parser (proved per enum in U3)
 pub trait ZvtParser: Sized {
     spec fn parse_spec(b: Seq<u8>) -> Option<Self>;
